@@ -5,6 +5,17 @@ import vlib
 from vlib import Infra, log
 
 
+_STATIC_EVENTS = None
+def static_events():
+    """action names of spec/api/StaticCtx.tla (the specification's list of calls enabled on secp256k1_context_static)"""
+    global _STATIC_EVENTS
+    if _STATIC_EVENTS is None:
+        import re
+        txt = open(os.path.join(vlib.VERIF, "spec/api/StaticCtx.tla")).read()
+        txt = re.sub(r"\\\*.*", "", txt)
+        _STATIC_EVENTS = set(re.findall(r'"([A-Za-z0-9_]+)"', txt))
+    return _STATIC_EVENTS
+
 class Check:
     def __init__(self, pid, tier, seed):
         self.pid, self.tier, self.seed = pid, tier, seed
@@ -119,6 +130,32 @@ class Check:
         # (C20: results are a function of the arguments only); cheap: only the harness runs again
         if variant == "std" and env is None and getattr(self, "auto_custom_sha", True) and len(recs) <= 300000 and not self.violations:
             self.replay(recs, variant, name + " [replaced SHA-256 compression]", soft=soft, soft_trace=soft_trace, env={"VH_CUSTOM_SHA": "1"})
+        # ... and, for the actions the specification lists as enabled on the static context (spec/api/StaticCtx.tla), once more
+        # on a copy of secp256k1_context_static: same arguments, same results, no callback
+        if variant == "std" and env is None and not self.violations:
+            if os.environ.get("VERIF_STATIC_DISCOVER"):
+                self.static_discover(recs, variant, name)
+            else:
+                sub = [r for r in recs if r["e"] in static_events()]
+                if sub:
+                    self.replay(sub, variant, name + " [static context]", soft=soft, soft_trace=soft_trace, env={"VH_STATIC_CTX": "1"})
+
+    def static_discover(self, recs, variant, name):
+        """development aid (never part of a registered command): which actions give identical results on the static context?"""
+        by = collections.defaultdict(list)
+        for r in recs:
+            by[r["e"]].append(r)
+        res = {}
+        for e, rs in by.items():
+            rs = rs[:400]
+            obs, rc, err = vlib.harness(self.bins[variant], rs, env={"VH_STATIC_CTX": "1"})
+            if rc != 0 or len(obs) != len(rs):
+                res[e] = "crash rc=%s after %d/%d" % (rc, len(obs), len(rs))
+            else:
+                res[e] = "%d/%d differ" % (len(vlib.compare(rs, obs)), len(rs))
+        with open("/tmp/static_discover_%s.txt" % self.pid, "a") as f:
+            for e, v in sorted(res.items()):
+                f.write("%s %s: %s\n" % (name, e, v))
 
     @staticmethod
     def label_of(r):
